@@ -16,7 +16,7 @@ Definition c11_getter_violation (fx : fixes) (p : program) : bool :=
 Fixpoint bad_cases (i : imap) (cs : cases) : list N :=
   match cs with
   | CNil => []
-  | CCons cp _ _ b r => (if any_stops i b && cN (fst (sem_l b)) then [cp] else []) ++ bad_cases i r
+  | CCons cp _ _ b r => (if any_stops i b && cN (csem_l b) then [cp] else []) ++ bad_cases i r
   end.
 Definition c11_case_violations (fx : fixes) (p : program) : list N :=
   let i := analyze fx p in
